@@ -178,14 +178,49 @@ func CallMethod(obj interface{}, methodName string, args ...interface{}) (interf
 			methodName, methodType.NumIn(), len(args))
 	}
 
-	// Prepare arguments
+	// Prepare arguments. reflect.Call panics on an invalid Value (a nil
+	// argument) and on a value that is not assignable to the parameter, so both
+	// are turned into an ordinary error (or a typed nil) here.
 	methodArgs := make([]reflect.Value, len(args))
 	for i, arg := range args {
-		methodArgs[i] = reflect.ValueOf(arg)
+		paramIndex := i
+		if methodType.IsVariadic() && i >= methodType.NumIn()-1 {
+			paramIndex = methodType.NumIn() - 1
+		}
+		paramType := methodType.In(paramIndex)
+		if methodType.IsVariadic() && paramIndex == methodType.NumIn()-1 {
+			paramType = paramType.Elem()
+		}
+		if arg == nil {
+			switch paramType.Kind() {
+			case reflect.Interface, reflect.Ptr, reflect.Map, reflect.Slice, reflect.Func, reflect.Chan:
+				methodArgs[i] = reflect.Zero(paramType)
+				continue
+			}
+			return nil, fmt.Errorf("method %s: argument %d cannot be null", methodName, i+1)
+		}
+		argValue := reflect.ValueOf(arg)
+		if !argValue.Type().AssignableTo(paramType) {
+			return nil, fmt.Errorf("method %s: argument %d has type %s, expected %s",
+				methodName, i+1, argValue.Type(), paramType)
+		}
+		methodArgs[i] = argValue
 	}
 
-	// Call the method
-	results := method.Call(methodArgs)
+	// Call the method. A panic inside the provider (a nil map, a comparison of
+	// uncomparable values) must come back as an error too.
+	var results []reflect.Value
+	if callErr := func() (err error) {
+		defer func() {
+			if r := recover(); r != nil {
+				err = fmt.Errorf("method %s failed: %v", methodName, r)
+			}
+		}()
+		results = method.Call(methodArgs)
+		return nil
+	}(); callErr != nil {
+		return nil, callErr
+	}
 
 	// Handle return values
 	if len(results) == 0 {
